@@ -12,7 +12,7 @@ DEDUCTIVE = ['vsg.vhdlFile.vhdlFile.vhdlFile.fix_blank_lines', 'vsg.vhdlFile.vhd
 def run():
     c = Check("C02", "other")
     c.engine = Engine()
-    c.deductive(sorted(set(DEDUCTIVE + _pipeline.fix_bases(c.engine))))
+    c.deductive(sorted(set(DEDUCTIVE + _pipeline.fix_bases(c.engine))), _pipeline.fix_base_search(c.engine, c.seed))
     _pipeline.pipeline_part(c, "C02")
     # a comment owns its whole line: the reader must not cut lines at VT / FF / NEL / LS ... (comments would lose their tail)
     from bounded import corpus, readfile
